@@ -99,14 +99,16 @@ func (e *Engine) havocObserve(st *State, ch *ChanVal, ins ssa.Instruction) (clos
 	if c.closed {
 		return true, true
 	}
-	e.nondetSeq++
-	b := Var(fmt.Sprintf("hv%d", e.nondetSeq), 0)
-	st.nondets = append(st.nondets, NondetRec{Kind: "bool", term: b})
+	// named after the position in the path: the clone made by branch re-executes this instruction
+	// and must meet the same variable (already decided by its path condition)
+	b := Var(fmt.Sprintf("hv_%d", st.choiceSeq), 0)
 	st.nonReplayable = true
 	taken, alive := e.branch(st, b, ins, "havoc-chan")
 	if !alive {
 		return false, false
 	}
+	st.nondets = append(st.nondets, NondetRec{Kind: "bool", term: b})
+	st.choiceSeq++
 	if taken {
 		nc := *c
 		nc.closed = true
@@ -271,14 +273,18 @@ func (e *Engine) doSelect(st *State, f *Frame, x *ssa.Select) int {
 	// nondeterministic choice among the ready cases
 	pick := 0
 	if len(ready) > 1 {
-		e.nondetSeq++
-		sel := Var(fmt.Sprintf("sel%d", e.nondetSeq), 8)
-		st.nondets = append(st.nondets, NondetRec{Kind: "u8", term: sel})
-		st.assume(Ult(sel, BV(uint64(len(ready)), 8)))
+		// the choice variable is named after its position in the path, so that the forks made by
+		// concretize (which re-execute this instruction) find the value already decided
+		sel := Var(fmt.Sprintf("sel_%d", st.choiceSeq), 8)
+		if _, decided := st.known[sel.id]; !decided {
+			st.nondets = append(st.nondets, NondetRec{Kind: "u8", term: sel})
+			st.assume(Ult(sel, BV(uint64(len(ready)), 8)))
+		}
 		v, ok := e.concretize(st, sel, "select-case")
 		if !ok {
 			return stDone
 		}
+		st.choiceSeq++
 		pick = int(v)
 	}
 	r := ready[pick]
